@@ -1,5 +1,6 @@
 import Driver.Common
 import Model.Dispatch
+import Model.DeprecWorld
 open Lean Drv Disp
 
 def pairNat (j : Json) : Except String (Nat × Nat) := do
@@ -21,6 +22,40 @@ def optNatOf (j : Json) : Except String (Option Nat) :=
   match j with
   | Json.null => pure none
   | v => do pure (some (← asNat v))
+
+def actionOf (s : String) : Except String Action :=
+  match s with
+  | "error" => pure .error
+  | "ignore" => pure .ignore
+  | "always" => pure .always
+  | "default" => pure .default
+  | "module" => pure .module
+  | "once" => pure .once
+  | _ => throw "bad-op"
+
+def filterOf (j : Json) : Except String WFilter := do
+  let a ← asArr j
+  match a.toList with
+  | [x, y] => pure ⟨(← actionOf (← asStr x)), (← asBool y)⟩
+  | _ => throw "bad-op"
+
+def actionName : Action → String
+  | .error => "error" | .ignore => "ignore" | .always => "always"
+  | .default => "default" | .module => "module" | .once => "once"
+
+def jFilters (fs : List WFilter) : Json := jArr (fs.map fun f => jArr [jStr (actionName f.action), jBool f.matching])
+
+/-- outcome of one call in the world model: what ran / what was raised -/
+def jRes : Res Unit Nat → Json × World Unit
+  | .returned i w => (Json.mkObj [("impl", jNat i), ("raised", Json.null)], w)
+  | .raised e w =>
+    let k := match e with
+      | .deprecationWarning _ => "DeprecationWarning"
+      | .biogemeDeprecated => "BiogemeError"
+      | .attributeError => "AttributeError"
+      | .typeError => "TypeError"
+      | .other _ => "other"
+    (Json.mkObj [("impl", Json.null), ("raised", jStr k)], w)
 
 def handle (j : Json) : Except String Json := do
   let op ← getStr j "op"
@@ -49,6 +84,53 @@ def handle (j : Json) : Except String Json := do
       | _ => throw "bad-op"
     let (out, w) := renameKwargs m kw
     pure (Json.mkObj [("kw", jArr (out.map fun (k, v) => jArr [jNat k, jStr v])), ("warnings", jNat w)])
+  | "world" =>
+    -- `n` successive calls of the alias (or of the new name) from the same place, in a process
+    -- with the given warning filters; every function object returns its own identity
+    let H ← (← getArr j "classes").toList.mapM clsOf
+    let c ← getNat j "c"
+    let nm ← getNat j "new"
+    let cap ← getNat j "captured"
+    let fs ← (← getArr j "filters").toList.mapM filterOf
+    let dflt ← actionOf (← getStr j "default")
+    let reg ← natList (← j.getObjVal? "registry")
+    let n ← getNat j "n"
+    let recv ← getBool j "receiver"
+    let raiseFlag ← getBool j "raise_flag"
+    let side ← getStr j "side"
+    let sem : ImplId → Unit → World Unit → Res Unit Nat := fun i _ w => .returned i w
+    let step (w : World Unit) : Json × World Unit :=
+      if side == "new" then jRes (runNew sem H c nm () w)
+      else if recv then jRes (runAlias raiseFlag sem H c nm cap 5 () w)
+      else jRes (runAliasNoReceiver raiseFlag sem cap 5 () w)
+    let rec loop (k : Nat) (w : World Unit) (acc : List Json) : List Json × World Unit :=
+      match k with
+      | 0 => (acc.reverse, w)
+      | k + 1 => let (o, w') := step w; loop k w' (o :: acc)
+    let (outs, w') := loop n ⟨fs, dflt, reg, [], ()⟩ []
+    pure (Json.mkObj [("calls", jArr outs), ("shown", jNat w'.shown.length), ("filters", jFilters w'.filters),
+                      ("filters_unchanged", jBool (w'.filters == fs)), ("registered", jBool (w'.registry.contains 5))])
+  | "kwworld" =>
+    let m ← (← getArr j "map").toList.mapM fun e => do
+      let a ← asArr e
+      match a.toList with
+      | [o, n] => pure ((← asNat o), (← optNatOf n))
+      | _ => throw "bad-op"
+    let kw ← (← getArr j "kw").toList.mapM fun e => do
+      let a ← asArr e
+      match a.toList with
+      | [k, v] => pure ((← asNat k), (← asStr v))
+      | _ => throw "bad-op"
+    let fs ← (← getArr j "filters").toList.mapM filterOf
+    let dflt ← actionOf (← getStr j "default")
+    let f : List (NameId × String) → World Unit → Res Unit (List (NameId × String)) := fun k w => .returned k w
+    match runKw m (fun k => 100 + k) f kw ⟨fs, dflt, [], [], ()⟩ with
+    | .returned k w => pure (Json.mkObj [("kw", jArr (k.map fun (a, v) => jArr [jNat a, jStr v])), ("raised", Json.null),
+        ("shown", jNats (w.shown.map (· - 100))), ("filters_unchanged", jBool (w.filters == fs))])
+    | .raised e w =>
+      let bad := match e with | .deprecationWarning b => jNat (b - 100) | _ => Json.null
+      pure (Json.mkObj [("kw", Json.null), ("raised", bad), ("shown", jNats (w.shown.map (· - 100))),
+        ("filters_unchanged", jBool (w.filters == fs))])
   | "slot" =>
     -- the table predicates on a given hierarchy and alias definition
     let H ← (← getArr j "classes").toList.mapM clsOf
